@@ -134,6 +134,32 @@ def check_spellings(ctx, case, styles=(0, 1, 2, 3, 4), respell=hb.RESPELL):
             shutil.rmtree(d, ignore_errors=True)
 
 
+def anytype_spellings(ctx):
+    """Hand-written documents for xs:anyType elements with plain text (no xsi:type): white space between the
+    children of the element-only parent must not change what they bind to."""
+    from ..poly_models import AnyHolder
+
+    xs = 'xmlns:xs="http://www.w3.org/2001/XMLSchema" xmlns:xsi="http://www.w3.org/2001/XMLSchema-instance"'
+    bodies = [["<v>plain</v>", "<w>one</w>", "<w>two words</w>", "<last>t</last>"],
+              ["<v>7</v>", f'<w {xs} xsi:type="xs:int">5</w>', "<w>x</w>"],
+              ["<w>a</w>", "<last>z</last>"]]
+    seps = {"compact": "", "newline-indent": "\n  ", "blank": " ", "tab": "\t", "crlf": "\r\n", "blank-lines": "\n\n    \n"}
+    xctx = XmlContext()
+    for body in bodies:
+        base = {}
+        for name, sep in seps.items():
+            text = "<AnyHolder>" + sep + sep.join(body) + (sep if sep else "") + "</AnyHolder>"
+            for h in ("native", "lxml"):
+                ctx.case(("anytype", "".join(body), name, h))
+                st, obj, _w = hb.parse(text, h, xctx, AnyHolder, "str", ParserConfig())
+                cur = (st, obj if st == "ok" else type(obj).__name__)
+                if name == "compact":
+                    base[h] = cur
+                elif cur != base[h]:
+                    ctx.violation(f"anyType elements: the {name} spelling ({h}) parses to {repr(cur[1])[:300]}; the compact spelling parses to {repr(base[h][1])[:300]}",
+                                  {"text": text, "handler": h})
+
+
 def has_qualified_qname(doc) -> bool:
     """Selector part of F14: the document carries a namespace-qualified QName value or xsi:type."""
     for _n, atoms in doc["attrs"]:
@@ -167,6 +193,7 @@ def run(ctx):
         c = cases[len(cases) // 3]
         ctx.sample({"document": c["doc"], "spellings": [rb.render_doc(c["doc"], s) for s in (0, 1, 2)]})
     ctx.extra["documents_respelled"] = len(cases)
+    anytype_spellings(ctx)
 
 
 def replay(ctx, doc):
